@@ -111,6 +111,81 @@ Section Top.
   Qed.
 End Top.
 
+(* ---------- the expected default EXISTS: default_is_idl is not an equality of two Nones ---------- *)
+(* the shape of the declarations alone (no literal is looked at): a type has an empty value unless a chain of required by-value
+   members without default is deeper than k, ends at an empty union, or a typedef does not resolve *)
+Fixpoint default_shape_ok (S : lschema) (k : nat) (t : ty) : bool :=
+  match k with
+  | O => false
+  | Datatypes.S k' =>
+      match sresolve S t with
+      | TyRef n =>
+          match sitem S n with
+          | Some (IEnum _) => true
+          | Some (IStruct fs _ _) =>
+              forallb (fun fd => match lf_dflt fd, lf_req fd with
+                                 | Some _, _ => true
+                                 | None, Optional => true
+                                 | None, Required => default_shape_ok S k' (erase (lf_ty fd))
+                                 end) fs
+          | Some (IUnion ((_, vt) :: _) _ _) => default_shape_ok S k' (erase vt)
+          | _ => false
+          end
+      | _ => true
+      end
+  end.
+
+Section Exists.
+  Variable parse_f64 : list byte -> option Z.
+  Variable S : lschema.
+  Hypothesis Hwt : lits_typed parse_f64 S = true.
+  Let F := efuel S.
+
+  Lemma fields_exist k (IH : forall t, default_shape_ok S k t = true -> exists v, sempty_n parse_f64 S F k t = Some v)
+    n fs0 kp ia : nth_error (ls_items S) n = Some (IStruct fs0 kp ia) -> forall fs, incl fs fs0 ->
+    forallb (fun fd => match lf_dflt fd, lf_req fd with
+                       | Some _, _ => true
+                       | None, Optional => true
+                       | None, Required => default_shape_ok S k (erase (lf_ty fd))
+                       end) fs = true ->
+    exists out, sempty_fields (fun l t => lit_value_n parse_f64 S F t l) (sempty_n parse_f64 S F k) fs = Some out.
+  Proof.
+    intros Hn. induction fs as [|fd r IHr]; intros Hin Hok; [eexists; reflexivity|].
+    cbn [forallb] in Hok. apply Bool.andb_true_iff in Hok. destruct Hok as [Hfd Hr].
+    destruct (IHr (fun x Hx => Hin x (or_intror Hx)) Hr) as (rest & Er).
+    cbn [sempty_fields]. fold (sempty_fields (fun l t => lit_value_n parse_f64 S F t l) (sempty_n parse_f64 S F k)). rewrite Er.
+    destruct (lf_dflt fd) as [l|] eqn:Ed.
+    - unfold lits_typed in Hwt. rewrite forallb_forall in Hwt. specialize (Hwt _ (nth_error_In _ _ Hn)). cbn in Hwt.
+      rewrite forallb_forall in Hwt. specialize (Hwt _ (Hin fd (or_introl eq_refl))). rewrite Ed in Hwt.
+      unfold well_typed_lit, well_typed_lit_n in Hwt. fold F in Hwt.
+      destruct (lit_value_n parse_f64 S F (erase (lf_ty fd)) l); [eexists; reflexivity|discriminate].
+    - destruct (lf_req fd).
+      + destruct (IH _ Hfd) as (x & ->). eexists; reflexivity.
+      + eexists; reflexivity.
+  Qed.
+
+  Lemma default_exists_n k : forall t, default_shape_ok S k t = true -> exists v, sempty_n parse_f64 S F k t = Some v.
+  Proof.
+    induction k as [|k IH]; intros t H; [discriminate|].
+    cbn [default_shape_ok sempty_n] in *. unfold sempty_step.
+    destruct (sresolve S t); try (eexists; reflexivity).
+    destruct (sitem S n) as [[fs kp ia|ms|vs vo kp|a]|] eqn:En; try discriminate.
+    - unfold sitem in En. destruct (fields_exist k IH n fs kp ia En fs (incl_refl _) H) as (out & ->). eexists; reflexivity.
+    - eexists; reflexivity.
+    - destruct vs as [|[id vt] vr]; [discriminate|]. destruct (IH _ H) as (x & ->). eexists; reflexivity.
+  Qed.
+
+  (* every struct / union / enum whose declarations have the shape: the expected default exists, and (class-free schema) it is
+     the Default value of the emitted type *)
+  Theorem default_exists (Hcf : class_free_schema S = true) n :
+    default_shape_ok S (Datatypes.S (Datatypes.S (length (ls_items S)))) (TyRef n) = true ->
+    exists v, expected_default parse_f64 S n = Some v /\ default_of (proj parse_f64 S) (TyRef n) = Some v.
+  Proof.
+    intros H. destruct (default_exists_n _ _ H) as (v & Hv). exists v. split; [exact Hv|].
+    rewrite (default_is_idl parse_f64 S Hcf Hwt n). exact Hv.
+  Qed.
+End Exists.
+
 (* ---------- the integer -> double arm, whatever the schema ---------- *)
 Lemma int_at_double pf S i : default_val_lit pf S RF64 (LInt i) = LOk (GDouble (f64_enc (z2f 53 i)), true).
 Proof. reflexivity. Qed.
@@ -483,3 +558,10 @@ Proof.
   split; [exact H1|]. split; [exact H2|]. split; [vm_compute; reflexivity|].
   symmetry. exact (default_is_idl pf0 S_ex H1 H2 4).
 Qed.
+
+Example default_exists_nonvacuous :
+  forallb (fun n => default_shape_ok S_ex (Datatypes.S (Datatypes.S (length (ls_items S_ex)))) (TyRef n)) [0; 1; 4]%nat = true /\
+  (* a required by-value cycle has no empty value, and the shape says so *)
+  default_shape_ok (mkLS [IStruct [mkLF [x61] 1 Required (RPath 0) None] false false] []) 3 (TyRef 0) = false /\
+  expected_default pf0 (mkLS [IStruct [mkLF [x61] 1 Required (RPath 0) None] false false] []) 0 = None.
+Proof. vm_compute. repeat split; reflexivity. Qed.
